@@ -109,6 +109,7 @@ BRIDGE = {
     'attrassign': lambda E, k: ['zo.a = %s' % E],
     'subassign': lambda E, k: ['d[%s] = %d' % (E, k())],
     'default': lambda E, k: ['def g(a=%s):' % E, '    return a', 'x = g()'],
+    'kwdefault': lambda E, k: ['def g(*, a=%s):' % E, '    return a', 'x = g()'],
     'decorator': lambda E, k: ['@deco(%s)' % E, 'def g():', '    return 1', 'x = g()'],
 }
 
